@@ -142,7 +142,9 @@ class Race(E1Check):
 
         child_sees: dict[str, Any] = {}
         async with Context() as ctx:
-            ctx.add_resource_factory(afactory if p["async"] else sfactory, types=[A, B] if two else [A])
+            # ("wrapped": the asynchronous factory is a plain callable returning the coroutine - e.g. a lambda binding arguments)
+            fac = (lambda: afactory()) if p.get("wrapped") else afactory
+            ctx.add_resource_factory(fac if p["async"] else sfactory, types=[A, B] if two else [A])
             async with anyio.create_task_group() as ltg:
                 lstarted = anyio.Event()
                 ltg.start_soon(listener, ctx, lstarted)
@@ -380,6 +382,18 @@ def cancel_first_units(tier: str) -> list:
     return units
 
 
+def wrapped_units(tier: str) -> list:
+    """the racing lookups of an asynchronous factory that is not a coroutine function itself"""
+    units = []
+    for n in ((2,) if tier == "quick" else (2, 3)):
+        for apis in (("method",) * n, ("method", "shortcut", "inject")[:n], ("inject",) * n):
+            for pre in ((False,) * n, (True,) * n):
+                for types in (1, 2):
+                    units.append({"race": {"async": True, "types": types, "own_child": False, "wrapped": True,
+                                           "tasks": [list(t) for t in zip(apis, ("A", "B", "A")[:n] if types == 2 else ("A",) * n, pre)]}})
+    return units
+
+
 def two_type_units(tier: str) -> list:
     """racing lookups of the two types of one async factory (used by C03 for hand-out stability and C18 for events)"""
     units = []
@@ -396,7 +410,7 @@ def compwait_units(tier: str) -> list:
 
 
 def race_units(tier: str) -> list:
-    units = adder_units(tier) + fail_first_units(tier) + cancel_first_units(tier) + compwait_units(tier)
+    units = adder_units(tier) + fail_first_units(tier) + cancel_first_units(tier) + compwait_units(tier) + wrapped_units(tier)
     ntasks = (2,) if tier == "quick" else (2, 3)
     for is_async in (True, False):
         for types in (1, 2):
